@@ -358,7 +358,8 @@ class SecopClient(ProxyClient):
         with self._lock:
             if self.io:
                 return
-            if not reconnecting:
+            if not reconnecting and current_thread() != self._connthread:
+                # (the reconnect thread gets here also from the requests it makes while connecting)
                 self._shutdown.clear()
             self.txq = queue.Queue(30)
             self.pending = queue.Queue(30)
